@@ -79,7 +79,7 @@ func (v *ver) String() string {
 
 // history is one generated database history: one parent element and its children.
 type history struct {
-	regime       string // "commit" | "pre"
+	regime       string // "commit" | "pre" | "mixed" (pre-commit uploads, then commit-time uploads)
 	th           time.Duration
 	thDefault    bool // the Threshold option is not passed (library default, 30 min)
 	parent       key
@@ -133,10 +133,15 @@ type kidState struct {
 // genHistory draws a history from the tape. The all-zero tape gives one node, one way version.
 func genHistory(t *kit.Tape, o genOpts) *history {
 	h := &history{kids: map[key][]*ver{}, regime: "commit"}
-	if o.pre && t.Draw(3) == 2 {
-		h.regime = "pre"
+	if o.pre {
+		switch t.Draw(5) {
+		case 3:
+			h.regime = "pre"
+		case 4:
+			h.regime = "mixed"
+		}
 	}
-	pre := h.regime == "pre"
+	pre := h.regime != "commit" // the history starts before commit times were recorded
 	sep := pre && o.separated
 	ti := t.Draw(5)
 	if ti == 4 {
@@ -199,6 +204,7 @@ func genHistory(t *kit.Tape, o genOpts) *history {
 		}
 	}
 	upload := -1
+	preEra := pre
 	var cs osm.ChangesetID
 	note := func(f string, a ...interface{}) { h.log = append(h.log, fmt.Sprintf(f, a...)) }
 
@@ -206,7 +212,7 @@ func genHistory(t *kit.Tape, o genOpts) *history {
 		v.upload = upload
 		v.cs = cs
 		v.commit = clock
-		if pre {
+		if preEra {
 			d := t.Draw(2*jitMax + 1)
 			j := (d + 1) / 2
 			if d%2 == 0 {
@@ -332,9 +338,16 @@ func genHistory(t *kit.Tape, o genOpts) *history {
 	if parentAt >= nUploads {
 		parentAt = nUploads - 1
 	}
+	switchAt := -1 // mixed regime: the first upload with commit times
+	if h.regime == "mixed" {
+		switchAt = 1 + t.Draw(nUploads)
+	}
 	for u := 0; u < nUploads; u++ {
 		upload = u
 		cs = osm.ChangesetID(1000 + u)
+		if u == switchAt {
+			preEra = false
+		}
 		if u > 0 {
 			if sep {
 				gap := 3*h.th + time.Second + time.Duration(t.Pick(0, 1, 7, 3600, 86400*30))*time.Second
@@ -364,6 +377,9 @@ func genHistory(t *kit.Tape, o genOpts) *history {
 				}
 				clock = clock.Add(gap)
 			}
+		}
+		if u == switchAt && clock.Before(baseCommit) {
+			clock = baseCommit
 		}
 		h.uploads = append(h.uploads, clock)
 		note("upload %d at +%v (changeset %d)", u, clock.Sub(h.uploads[0]), cs)
